@@ -119,17 +119,35 @@ class Observer:
                "caller": caller, "caller_name": caller.name.value, "callee_name": func.name.value, "prefix": prefix, "sb": sb, "idx": idx,
                "cf": fids[caller.name.value], "g": fids[func.name.value], "F": fe.term(), "G": ge.term(), "F_text": fe.text(),
                "G_text": ge.text(), "var_c": var_c, "var_g": var_g, "fids": fids, "foreign": foreign,
-               "supported": fe.entry_first and ge.entry_first, "ninsts": fe.ninsts() + ge.ninsts()}
+               "supported": fe.entry_first and ge.entry_first, "ninsts": fe.ninsts() + ge.ninsts(), "nblocks_F": len(fe.blocks),
+               "callee_outs": [[None if i.opcode in ("ret", "retfmp") else [o.value for o in i.get_outputs()] for i in bb.instructions] for bb in ge.blocks]}
         return rec
 
     def after_site(self, rec):
         fe = FnExport(rec["caller"], rec["var_c"], rec["fids"], rec["foreign"])
         rec["F2"] = fe.term()
         rec["F2_text"] = fe.text()
-        # the renaming certificate: callee variable %x -> %<prefix>x
+        # the renaming certificate (untrusted): read off the clone positionally -- the outputs of instruction pc of callee block j
+        # against the outputs of instruction pc of block n + 1 + j of the caller after the pass; callee variables that are never
+        # defined (or a clone of another shape) fall back to the naming scheme %x -> %<prefix>x
+        rho_names = {}
+        n = rec["nblocks_F"]
+        for j, outs_j in enumerate(rec["callee_outs"]):
+            if n + 1 + j >= len(fe.blocks):
+                break
+            insts = fe.blocks[n + 1 + j].instructions
+            for pc, outs in enumerate(outs_j):
+                if outs is None:          # a ret: the clone has another length from here on
+                    break
+                if pc >= len(insts):
+                    break
+                new_outs = [o.value for o in insts[pc].get_outputs()]
+                if len(new_outs) == len(outs):
+                    for a, b_ in zip(outs, new_outs):
+                        rho_names.setdefault(a, b_)
         rho = []
         for name, gid in rec["var_g"].items():
-            new = "%" + rec["prefix"] + name.removeprefix("%")
+            new = rho_names.get(name, "%" + rec["prefix"] + name.removeprefix("%"))
             if new not in rec["var_c"]:
                 rec["var_c"][new] = len(rec["var_c"])      # never used in the clone (dead): any fresh id will do
             rho.append((gid, rec["var_c"][new]))
@@ -137,7 +155,7 @@ class Observer:
         rec["ctx_after"] = {f.name.value: str(f) for f in rec["ctx"].functions.values()}
         rec["entry"] = rec["ctx"].entry_function.name.value if rec["ctx"].entry_function is not None else None
         rec["origin"] = self.origin
-        del rec["caller"], rec["var_c"], rec["var_g"], rec["ctx"]
+        del rec["caller"], rec["var_c"], rec["var_g"], rec["ctx"], rec["callee_outs"]
         self.inline.append(rec)
 
 
@@ -218,8 +236,10 @@ def part_inline_mem2var(ctx):
     from vyper.venom.passes import FunctionInlinerPass
     quick = ctx.tier != "thorough"
     ctx.coq_build_cached(COQ_MODEL, timeout=600)
+    # C04/Concretize.v (static file of C04; M2VProofs.v links to its checker theorem): never force-rebuild someone else's file
+    coqrun.build_sequence(["C04/Concretize.v"], force=False)
     proofs = [f for f in COQ_PROOFS if (COQ / f).exists()]
-    b = ctx.coq_build_cached(proofs, deps=COQ_MODEL, timeout=1200)
+    b = ctx.coq_build_cached(proofs, deps=COQ_MODEL + ["C04/Concretize.v"], timeout=1200)
     rnd = ctx.rng("c14i")
     progs = PC.select(ctx.tier, rnd)
     levels = [OptimizationLevel.GAS, OptimizationLevel.CODESIZE] if quick else [OptimizationLevel.GAS, OptimizationLevel.CODESIZE, OptimizationLevel.O3]
@@ -229,7 +249,9 @@ def part_inline_mem2var(ctx):
     srcs = {}
     with _w.catch_warnings():
         _w.simplefilter("ignore")
-        with Observer(max_insts=700 if quick else 4000) as obs:
+        o_ = Observer(max_insts=700 if quick else 4000)
+        o_.m2v_stride = 5 if quick else 1
+        with o_ as obs:
             for c in progs:
                 for lvl in levels:
                     obs.origin = f"corpus:{c['name']}@{lvl.name}"
